@@ -251,7 +251,7 @@ def gen_boxes(rng, s, count):
     out = []
     for _ in range(count):
         cls = rng.choice(["aligned", "aligned", "arbitrary", "arbitrary", "thin", "mixed", "touch-hi", "whole",
-                          "partly-out", "out", "tiny-out-hi", "tiny-out-lo"])
+                          "partly-out", "out", "tiny-out-hi", "tiny-out-lo", "partly-out-lo", "out-lo"])
         q1, q2 = [], []
         for a in range(nd):
             i0 = rng.randint(0, n[a] - 1)
@@ -277,6 +277,10 @@ def gen_boxes(rng, s, count):
             q2[b] = hi[b] + cell[b] * F(1, 2)
         elif cls == "out":
             q1[b], q2[b] = hi[b] + cell[b], hi[b] + 3 * cell[b]
+        elif cls == "partly-out-lo":       # sticks out below by half a cell / by several cells
+            q1[b] = lo[b] - cell[b] * rng.choice([F(1, 2), 2])
+        elif cls == "out-lo":
+            q1[b], q2[b] = lo[b] - 3 * cell[b], lo[b] - cell[b]
         elif cls == "tiny-out-hi":
             q2[b] = hi[b] + (hi[b] - lo[b]) * F(s["tf"]) / 4
         elif cls == "tiny-out-lo":
@@ -308,7 +312,7 @@ def gen_ops(rng, s, tier):
     if rng.random() < 0.5:
         cases.append(dict(kind="getname", src=s, name="nosuch", cls="missing"))
     for cls, q1, q2 in gen_boxes(rng, s, kb):
-        if cls in ("aligned", "whole", "out", "partly-out"):
+        if cls in ("aligned", "whole", "out", "partly-out", "out-lo"):
             cases.append(dict(kind="slices", src=s, q1=q1, q2=q2, cls=cls, qt=rng.choice(qts)))
     for name, a, b in s["subs"][:2]:
         cases.append(dict(kind="slices", src=s, q1=a, q2=b, cls="subregion"))
